@@ -106,10 +106,21 @@ func (sc *SCtx) importedPkg(name string) *types.Package {
 		}
 	}
 	if from != nil {
+		// two imports may share the package name (oxia/proto and protobuf/proto): the
+		// repository's own package wins
+		var first *types.Package
 		for _, imp := range from.Imports() {
 			if imp.Name() == name {
-				return imp
+				if strings.HasPrefix(imp.Path(), ModPath) {
+					return imp
+				}
+				if first == nil {
+					first = imp
+				}
 			}
+		}
+		if first != nil {
+			return first
 		}
 	}
 	for _, pk := range sc.g.P.Pkgs {
